@@ -348,6 +348,7 @@ fn main() {
         drop_types: BTreeSet::new(),
         backparam_fns: BTreeMap::new(),
         mutref_params: BTreeMap::new(),
+        fn_ret_head: BTreeMap::new(),
         field_types: BTreeMap::new(),
         ghost_structs: BTreeMap::new(),
         dropped_fields: BTreeMap::new(),
@@ -603,6 +604,13 @@ fn main() {
         let name = ff.sig.ident.to_string();
         if ff.sig.asyncness.is_some() {
             t.internal_async.insert(name.clone());
+        }
+        if let ReturnType::Type(_, rt) = &ff.sig.output {
+            if let Some(h) = type_last_ident(rt) {
+                if (h == "Result" || h == "Option") && ff.sig.asyncness.is_none() {
+                    t.fn_ret_head.insert(name.clone(), h);
+                }
+            }
         }
         if name == "drop" {
             if let Some(ty) = &ff.impl_ty {
